@@ -125,15 +125,16 @@ class State:
 
     def mk_value(self, spec):
         k = spec["k"]
-        if k == "str" and spec["v"] and _pick(spec["v"], 30) == 0:
+        self.nvalues = getattr(self, "nvalues", 0) + 1      # the n-th value of the program (the same in every run of the program)
+        if k == "str" and spec["v"] and self.nvalues % 17 == 0:
             return StrictStr(spec["v"])
-        if k == "int" and _pick(str(spec["v"]), 25) == 0:
+        if k == "int" and self.nvalues % 13 == 0:
             return SubInt(spec["v"])
         if k in ("str", "int", "float", "bool"):
             return spec["v"]
         if k == "dt":
             d = mk_dt(spec)
-            if d.tzinfo is not None and _pick(spec["iso"], 12) == 0:
+            if d.tzinfo is not None and self.nvalues % 5 == 0:
                 return AwareDT(d.year, d.month, d.day, d.hour, d.minute, d.second, d.microsecond, d.tzinfo)
             return d
         if k == "recval":
@@ -145,6 +146,17 @@ class State:
         if k == "lang":
             return pm.Literal(spec["v"], langtag=spec["lang"])
         if k == "lit":
+            # programs reuse their Literal objects (a constant such as Literal("12.5", UNITS["cm"]) used on many records, in several
+            # bundles): two out of three equal specifications get the very same object
+            import json
+            key = json.dumps(spec, sort_keys=True)
+            if _pick(key, 3) != 0:
+                lit = self.litpool.get(key) if hasattr(self, "litpool") else None
+                if lit is None:
+                    if not hasattr(self, "litpool"):
+                        self.litpool = {}
+                    lit = self.litpool[key] = pm.Literal(spec["v"], self.mk_name(spec["dt"]))
+                return lit
             return pm.Literal(spec["v"], self.mk_name(spec["dt"]))
         raise AssertionError(k)
 
@@ -181,7 +193,7 @@ class Skip(Exception):
 def exec_op(st, op):
     """Execute one operation. Returns the created/affected object (or None)."""
     k = op[0]
-    if k in ("ns", "dns", "rec", "lookup") and op[1] not in st.tg:
+    if k in ("ns", "dns", "rec", "lookup", "vqn") and op[1] not in st.tg:
         raise Skip("no-target")
     if k == "ns":
         if op[2] and len(op[3]) % 2 == 0:
@@ -326,6 +338,16 @@ def exec_op(st, op):
         return rec
     if k == "lookup":
         return st.tg[op[1]].get_record(st.mk_name(op[2]))
+    if k == "deepcopy":
+        # copy.deepcopy of the whole document: the copies become targets of their own ("D~", "B0~" ...)
+        import copy
+        clone = copy.deepcopy(st.doc)
+        st.tg["D~"] = clone
+        by_uri = {b.identifier.uri: b for b in clone.bundles if b.identifier is not None}
+        for t, b in list(st.tg.items()):
+            if t != "D" and not t.endswith("~") and t not in st.detached and getattr(b, "identifier", None) is not None and b.identifier.uri in by_uri:
+                st.tg[t + "~"] = by_uri[b.identifier.uri]
+        return clone
     if k == "vqn":
         if op[1] not in st.tg:
             raise Skip("no-target")
